@@ -183,9 +183,16 @@ def monitor(run: Run):
     per_conn = collections.defaultdict(list)
     for e in dev.rx:
         per_conn[e["conn"]].append(e)
-    allowed_tokens = {run.token}
-    if any(m["ev"] == ("auth", "bad") for m in run.marks):
-        allowed_tokens.add(run.bad_token)
+    # the configured token is the good one; the unknown token may only appear while the explicit
+    # authenticate call that supplied it is running
+    bad_windows = [(m["rx_from"], m.get("rx_to", len(dev.rx))) for m in run.marks if m["ev"] == ("auth", "bad")]
+    index_of = {id(e): i for i, e in enumerate(dev.rx)}
+
+    def token_ok(e):
+        if e.get("token") == run.token:
+            return True
+        i = index_of[id(e)]
+        return e.get("token") == run.bad_token and any(a <= i < b for a, b in bad_windows)
     for cidx, entries in per_conn.items():
         accepted = False
         prev = None
@@ -194,8 +201,10 @@ def monitor(run: Run):
             if not accepted:
                 if pt != rc.T_HANDSHAKE_REQ:
                     out.append(("I1 non-handshake packet before an accepted handshake", f"conn {cidx} type {pt}"))
-                elif e.get("token") not in allowed_tokens:
+                elif not token_ok(e):
                     out.append(("I1 handshake request without the configured token", f"conn {cidx}"))
+            if pt == rc.T_HANDSHAKE_REQ and accepted and not token_ok(e):
+                out.append(("I1 re-handshake without the configured token", f"conn {cidx}"))
             if pt == rc.T_HANDSHAKE_REQ and e["ok"] and not e.get("lost"):
                 accepted = True
             if pt == rc.T_ENC_REQ:
